@@ -6,7 +6,9 @@ and ``collection_class`` knobs) over a generated population (duplicates, NULL FK
 empty collections).  For every generated query (filters, any()/has(), explicit joins
 that duplicate primary rows, total ORDER BY, LIMIT/OFFSET, DISTINCT, extra column /
 entity in the row, aliased root, polymorphic root, yield_per, 2.0-style execute and
-legacy Query) optionally in a session that already holds the root objects unloaded) a relationship tree
+legacy Query) optionally in a session that already holds the root objects and / or the target rows
+unloaded; ``B.lead`` is a many-to-one that targets the subclass ``Eng`` while its foreign
+key references the base table and points at E / Eng / Mgr rows) a relationship tree
 of 1..3 nodes and depth <= 2 is drawn and **every**
 assignment of {lazy, joined, subquery, selectin, immediate} to its nodes is executed in a
 fresh Session, each with one column-option flavour (defer / load_only / undefer /
@@ -98,7 +100,7 @@ def target_of(zoo, owner, name):
 def gen_tree(zoo, rng, root):
     """Relationship tree with 1..3 nodes, depth <= 2, as nested dicts."""
     k = rng.choice([1, 2, 2, 2, 3, 3])
-    rootrels = zoo.relnames(root)
+    rootrels = zoo.relnames(root) + zoo.sub_relnames(root)
     r1 = rng.choice(rootrels)
     tree = {r1: {}}
     nodes = 1
@@ -107,7 +109,7 @@ def gen_tree(zoo, rng, root):
             # nest under an existing depth-1 node
             parent = rng.choice(list(tree))
             t = target_of(zoo, root, parent)
-            cand = [r for r in zoo.relnames(t) if r not in tree[parent]]
+            cand = [r for r in zoo.relnames(t) + zoo.sub_relnames(t) if r not in tree[parent]]
             if cand:
                 tree[parent][rng.choice(cand)] = {}
                 nodes += 1
@@ -132,7 +134,7 @@ def tree_classes(zoo, root, tree):
 
 PRED_COLS = {
     "A": [("x", "int"), ("grp", "int"), ("name", "str"), ("parent_id", "int")],
-    "B": [("pos", "int"), ("val", "str"), ("a_id", "int")],
+    "B": [("pos", "int"), ("val", "str"), ("a_id", "int"), ("lead_id", "int")],
     "C": [("q", "int"), ("b_id", "int")],
     "T": [("label", "str")],
     "P": [("bio", "str"), ("a_id", "int")],
@@ -271,6 +273,9 @@ def gen_query(zoo, rng):
     # the session may already hold the root objects with every relationship unloaded
     # (exercises population of *existing* instances)
     q["preload"] = rng.random() < 0.35
+    # ... and / or the rows the tree's depth-1 relationships point at (a many-to-one lazy
+    # or immediate load is then served from the identity map)
+    q["preload_targets"] = rng.random() < 0.35
     return q
 
 
@@ -500,6 +505,13 @@ def run_variant(sa, orm, R, zoo, engine, spy, q, tree, assign, style, flavour, r
         if q.get("preload"):
             pre_cls = zoo.cls["E" if q["root"] in ("Eng", "Mgr") else q["root"]]
             held = s.scalars(sa.select(pre_cls).options(orm.lazyload("*"))).all()
+        if q.get("preload_targets"):
+            rb = "E" if q["root"] in ("Eng", "Mgr") else q["root"]
+            held = [held]
+            for name in tree:
+                t = zoo.rel(rb, name).target
+                tcls = zoo.cls["E" if t in ("Eng", "Mgr") else t]
+                held.append(s.scalars(sa.select(tcls).options(orm.lazyload("*"))).all())
         try:
             if q["api"] == "query":
                 lq = build_legacy(s, pc, q, opts)
@@ -642,6 +654,11 @@ def one_query(ctx, sa, orm, R, zoo, engine, spy, q, tree, rng, warnings):
         ctx.count("offset_only_queries")
     if q.get("preload"):
         ctx.count("preloaded_session_queries")
+    if q.get("preload_targets"):
+        ctx.count("preloaded_target_queries")
+    if any(len(p) == 1 and p[0] in zoo.sub_relnames("E" if root in ("Eng", "Mgr") else root) for p in paths) or \
+            any(len(p) == 2 and p[1] == "lead" for p in paths):
+        ctx.count("subclass_target_m2o_queries")
     if q["distinct"]:
         ctx.count("distinct_queries")
     if q["join"]:
@@ -771,6 +788,10 @@ def classify_error(zoo, root, tree, assign, flavour, e, phase):
                     if (rv.direction == "m2o" and rv.fk_table == ri.fk_table and rv.fk_col == ri.fk_col
                             and rv.lazy != "select"):
                         return "lazyload-adds-reverse-lazyload-conflicting-with-user-option"
+    if name == "AssertionError" and "joined eager loads" in msg:
+        # joinedload(<rel to a joined-inheritance subclass>).joinedload(<rel>, innerjoin=True):
+        # _splice_nested_inner_join cannot place the inner join inside "(base JOIN sub)"
+        return "joined-nested-innerjoin-under-subclass-target:AssertionError"
     if name == "AttributeError" and "_sa_appender" in msg:
         # one attribute of one instance populated by two loaders along two paths of the
         # same query (e.g. subqueryload at the root + mapper-level joined when the
